@@ -46,7 +46,7 @@ structure FF where
   prec : Nat
 
 inductive WSpec where
-  | s (sfs : List SField)
+  | s (sfs : List SField) (sched : List Bool)     -- sched: per-record method on the one encoder (true = Encode); [] = all Encode
   | f (shpType : Nat) (ffs : List FF)
 inductive RSpec where
   | s (sfs : List SField) (reuse : Bool)
@@ -74,7 +74,12 @@ structure Case where
 
 def wspecP : PM WSpec := do
   match ← next with
-  | "S" => let n ← nat; let l ← many sfieldP n; pure (.s l)
+  | "S" => let n ← nat; let l ← many sfieldP n; pure (.s l [])
+  | "SM" =>
+    let k ← nat
+    let ms ← many next k
+    let n ← nat; let l ← many sfieldP n
+    pure (.s l (ms.map (· == "E")))
   | "F" =>
     let t ← nat; let n ← nat
     let l ← many (do let nm ← hexB; let ty ← nat; let sz ← nat; let pr ← nat; pure (⟨nm, ty, sz, pr⟩ : FF)) n
@@ -130,11 +135,12 @@ structure Written where
 
 def runWrite (c : Case) : Except Fault Written :=
   match c.w with
-  | .s sfs =>
+  | .s sfs sched =>
     match newEncoder sfs with
     | .error f => .error f
     | .ok e =>
-      let (rows, res) := writeAllS ptEqBits e (c.recs.map fun r => (fieldGeom e.geomKind r.1, r.2))
+      let recs := c.recs.map fun r => (fieldGeom e.geomKind r.1, r.2)
+      let (rows, res) := if sched.isEmpty then writeAllS ptEqBits e recs else writeAllMix ptEqBits e sched recs
       .ok ⟨⟨e.shpType, e.fields, rows⟩, res⟩
   | .f t ffs =>
     let fields := ffs.map fun f => (⟨name11 f.name, f.typ, f.size, f.prec⟩ : Field)
@@ -226,7 +232,7 @@ structure Col where
 
 def colsOf (c : Case) : List Col :=
   match c.w with
-  | .s sfs => sfs.filterMap fun sf =>
+  | .s sfs _ => sfs.filterMap fun sf =>
       let nm := if sf.tag.isEmpty then sf.name else sf.tag
       match sf.kind with
       | .int => some ⟨nm, 0, 10, 0⟩ | .float => some ⟨nm, 1, 30, 10⟩ | .str => some ⟨nm, 2, 50, 0⟩ | _ => none
@@ -249,7 +255,7 @@ def distinctNames : List Bytes → Bool
 /-- kind of the geometry a record of the file reads back as (the file's kind) -/
 def fileKind (c : Case) : String :=
   match c.w with
-  | .s sfs => match (sfs.filterMap fun sf => match sf.kind with | .geom k => some k | _ => none).getLast? with
+  | .s sfs _ => match (sfs.filterMap fun sf => match sf.kind with | .geom k => some k | _ => none).getLast? with
     | some k => gkName k | none => "nogeom"
   | .f t _ => match t with | 0 => "nil" | 1 => "point" | 3 => "polyline" | 5 => "polygon" | 8 => "multipoint" | _ => "other"
 
@@ -257,7 +263,7 @@ def writerInContract (c : Case) : Bool :=
   let cols := colsOf c
   cols.all (fun col => Spec.nameInContract col.name && col.ty != 3) && distinctNames (cols.map (·.name)) &&
   (match c.w with
-   | .s sfs => (sfs.filter fun sf => match sf.kind with | .geom _ => true | _ => false).length == 1 &&
+   | .s sfs _ => (sfs.filter fun sf => match sf.kind with | .geom _ => true | _ => false).length == 1 &&
        c.recs.all (fun r => match r.1 with | .nil => false | _ => true)
    | .f t _ => c.recs.all (fun r => shapeTypeOfGeom r.1 == t)) &&
   c.recs.all (fun r => r.2.length == cols.length && (List.zip cols r.2).all (fun cv => valInContract cv.1 cv.2)
@@ -364,7 +370,7 @@ def specViolations (c : Case) (cols : List Col) (plans : List (Bool × List (Opt
   a ++ b ++ e ++ n ++ rows
 
 def pathName (c : Case) : String :=
-  (match c.w with | .s _ => "S" | .f _ _ => "F") ++ (match c.r with | .s _ _ => "S" | .f _ => "F" | .m _ => "M")
+  (match c.w with | .s _ _ => "S" | .f _ _ => "F") ++ (match c.r with | .s _ _ => "S" | .f _ => "F" | .m _ => "M")
 
 def firstDiff : Tok → Tok → Nat → String
   | a :: as, b :: bs, i => if a == b then firstDiff as bs (i + 1) else s!"token {i}: model={a} impl={b}"
@@ -378,7 +384,7 @@ def judgeLine (line : String) : String :=
   | none => "BAD parse"
   | some (c, _) =>
     let cols := colsOf c
-    let cls0 := s!"{pathName c}-{fileKind c}"
+    let cls0 := s!"{pathName c}-{fileKind c}" ++ (match c.w with | .s _ (_ :: _) => "-wmix" | _ => "")
     match rhs with
     | "pin-mismatch" :: s =>
       s!"DIFF go-shp-pin the-model-transcribes-go-shp-with-another-content-hash linked={" ".intercalate s}"
